@@ -563,4 +563,26 @@ theorem issued_types_le_two (t : Template)
       simp_all
     omega
 
+theorem resolveSubjectDID_of_all {l : List Cred} {s acc : String}
+    (hall : ∀ c ∈ l, subjectDID c = some s) (hacc : acc = "" ∨ acc = s) :
+    resolveSubjectDID l acc = some (if l.isEmpty then acc else s) := by
+  induction l generalizing acc with
+  | nil => simp [resolveSubjectDID]
+  | cons c cs ih =>
+    unfold resolveSubjectDID
+    rw [hall c (by simp)]
+    simp only
+    have hcond : (acc != "" && acc != s) = false := by
+      cases hacc with
+      | inl h => simp [h]
+      | inr h => simp [h]
+    simp only [hcond]
+    rw [ih (fun c' hc' => hall c' (by simp [hc'])) (Or.inr rfl)]
+    simp
+
+/-- what the signature of a JSON-LD presentation has to determine: the holder and the carried credentials (as a multiset:
+    JSON-LD has no order of graphs) — linked-data credentials through their signed view, JWT credentials as their string -/
+def signedViewVP (defined : String → Bool) (vp : Pres) : Option String × List (SignedView × String) :=
+  (vp.holder, vp.vcs.map (fun c => (signedView defined c, c.raw)))
+
 end Nuts.C01
